@@ -402,7 +402,11 @@ class Interp:
                 raise Unsupported("aggregate choice other than 0")
             return ("str", x[1])   # (0 => e): a one-element array, adopts the context's vector type
         if k == "attr":
-            raise Unsupported("'event outside rising_edge/falling_edge")
+            a = strip_paren(e[1])
+            o = p.scope.lookup(a[1]) if a[0] == "name" else None
+            if e[2] != "event" or not isinstance(o, (Net, AliasNet)):
+                raise Unsupported("attribute other than signal'event")
+            return ("bool", base_net(o).id in self.events)
         if k == "call":
             return self.call(e, p, ctx)
         raise Unsupported("expression " + k)
@@ -565,18 +569,53 @@ def find_clock_reset(elab):
     return clk, rst
 
 
+def parse_htraces(path):
+    """half-period traces written by harness/C02_export.cpp -> {tag: dict(meta=.., pins_in, pins_out, cycles)}"""
+    import os
+    res, cur, ev = {}, None, []
+    if not os.path.exists(path):
+        return res
+    for line in open(path):
+        p = line.split()
+        if not p:
+            continue
+        if p[0] == "trace":
+            cur = dict(pins_in=[], pins_out=[], cycles=[], meta={})
+            res[" ".join(p[1:])] = cur
+        elif p[0] == "meta" and cur is not None:
+            cur["meta"] = dict(x.split("=", 1) for x in p[1:])
+        elif p[0] == "pins" and cur is not None:
+            i = p.index("out")
+            cur["pins_in"] = [tuple(x.rsplit(":", 1)) for x in p[2:i]]
+            cur["pins_out"] = [tuple(x.rsplit(":", 1)) for x in p[i + 1:]]
+        elif p[0] == "ev":
+            ev = p[1:]
+        elif p[0] == "cy" and cur is not None:
+            i = p.index("out")
+            cur["cycles"].append((p[3:i], p[i + 1:], ev))
+    return res
+
+
 def replay_trace(elab, tr, clock_names=("sysclk",), reset_names=("reset",), reset_active="1", case_merge=False, stats=None):
-    """tr: circ.parse_traces entry. Returns None or dict(cycle=, pin=, expected=, observed=, ...)"""
+    """tr: circ.parse_traces entry (one sample per period, events E e R1 R0) or parse_htraces entry (one sample per HALF
+    period, events E e R1@port R0@port, `meta` naming the exported clock / reset ports).  The clock edges and reset levels
+    of the real simulator's event log are applied to the VHDL ports in the recorded order; whether a register reacts to a
+    given edge is decided by the exported text (rising_edge / falling_edge / 'event), not by the replay.
+    Returns None or dict(cycle=, pin=, expected=, observed=, ...)"""
     it = Interp(elab, case_merge=case_merge)
     ports = {pn: (d, n) for pn, d, n in elab.top_ports}
+    meta = tr.get("meta") or {}
+    if meta.get("clkport", "-") != "-":
+        clock_names = (meta["clkport"],)
+    if "resets" in meta:
+        reset_names = tuple(x.split(":")[0] for x in meta["resets"].split(",") if x != "-")
     clk = [ports[c][1] for c in clock_names if c in ports]
-    rst = [ports[r][1] for r in reset_names if r in ports]
+    rst = {r: ports[r][1] for r in reset_names if r in ports}
     ins = [(nm, int(w)) for nm, w in tr["pins_in"]]
     outs = [(nm, int(w)) for nm, w in tr["pins_out"]]
     for nm, w in ins + outs:
         if w > 0 and nm not in ports:
-            return dict(kind="pin missing in VHDL", pin=nm)
-    cyc = -1
+            return dict(kind="pin missing in VHDL", pin=nm, cycle=0, contradiction=True, stimulus_fully_defined=True, expected=None, observed=None)
     try:
         return _replay_trace(it, tr, ports, clk, rst, ins, outs, reset_active, stats)
     except VhdlRuntimeError as ex:
@@ -586,11 +625,18 @@ def replay_trace(elab, tr, clock_names=("sysclk",), reset_names=("reset",), rese
 
 
 def _replay_trace(it, tr, ports, clk, rst, ins, outs, reset_active, stats):
-    # power-on: clock high (rising-edge clocks start high in the reference simulator), reset released
+    # power-on levels: the clock pin starts at the level opposite to its first recorded edge; every reset pin starts at the
+    # level of its power-on event (first ev line), as the generated test bench initialises them from the simulator's state
+    first_clk = next((e for c in tr["cycles"] for e in c[2] if e in ("E", "e")), "e")
     for c in clk:
-        it.val[c.id] = "1"; it.last[c.id] = "1"
-    for r in rst:
-        it.val[r.id] = _not(reset_active); it.last[r.id] = it.val[r.id]
+        it.val[c.id] = "1" if first_clk == "e" else "0"; it.last[c.id] = it.val[c.id]
+    lvl0 = {}
+    for e in (tr["cycles"][0][2] if tr["cycles"] else []):
+        if e[0] == "R":
+            lvl0.setdefault(e[3:] if "@" in e else None, e[1])
+    for name, r in rst.items():
+        v = lvl0.get(name, lvl0.get(None, _not(reset_active)))
+        it.val[r.id] = v; it.last[r.id] = v
     for nm, w in ins:
         if w > 0:
             n = ports[nm][1]
@@ -603,10 +649,12 @@ def _replay_trace(it, tr, ports, clk, rst, ins, outs, reset_active, stats):
                 it.apply({c.id: "1" for c in clk})
             elif ev == "e":
                 it.apply({c.id: "0" for c in clk})
-            elif ev == "R1":      # SimulatorCallbacks::onReset reports the LEVEL of the reset pin
-                it.apply({r.id: "1" for r in rst})
-            elif ev == "R0":
-                it.apply({r.id: "0" for r in rst})
+            elif ev[0] == "R":      # SimulatorCallbacks::onReset reports the LEVEL of the reset pin
+                if "@" in ev:
+                    if ev[3:] in rst:
+                        it.apply({rst[ev[3:]].id: ev[1]})
+                else:
+                    it.apply({r.id: ev[1] for r in rst.values()})
         upd = {}
         for (nm, w), v in zip(ins, iv):
             if w == 0:
@@ -620,7 +668,7 @@ def _replay_trace(it, tr, ports, clk, rst, ins, outs, reset_active, stats):
             got = it.get(nm)
             g01 = to_x01(got)
             if len(exp) != len(got):
-                return dict(kind="width differs", cycle=cyc, pin=nm, expected=exp, observed=got)
+                return dict(kind="width differs", cycle=cyc, pin=nm, expected=exp, observed=got, contradiction=True, stimulus_fully_defined=True)
             if stats is not None:
                 stats["bits_compared"] = stats.get("bits_compared", 0) + sum(1 for x in exp if x in "01")
                 stats["vhdl_more_defined_bits"] = stats.get("vhdl_more_defined_bits", 0) + sum(1 for x, y in zip(exp, g01) if x not in "01" and y in "01")
@@ -629,7 +677,7 @@ def _replay_trace(it, tr, ports, clk, rst, ins, outs, reset_active, stats):
                     contradiction = any(a in "01" and b in "01" and a != b for a, b in zip(exp, g01))
                     defined_so_far = all(all(ch in "01" for ch in v) for c2 in tr["cycles"][:cyc + 1] for v in c2[0] if v != "e")
                     return dict(kind="defined output value of the reference simulator not reproduced by the VHDL", cycle=cyc, pin=nm,
-                                expected=exp, observed=got, inputs=dict(zip([i[0] for i in ins], iv)),
+                                expected=exp, observed=got, inputs=dict(zip([i[0] for i in ins], iv)), events_before_sample=list(evs),
                                 contradiction=contradiction, stimulus_fully_defined=defined_so_far)
     if stats is not None:
         stats["deltas"] = stats.get("deltas", 0) + it.deltas
